@@ -590,3 +590,279 @@ Section RefMembers.
     - rewrite PM. reflexivity.
   Qed.
 End RefMembers.
+
+(** * 5. The pieces of the reader *)
+
+(** ** keys *)
+Lemma decode_split_plain : forall raw out, decode_content raw = Some out ->
+  let n := count_while (fun b => negb (bz b =? 92)) raw in
+  exists out', decode_content (skipn n raw) = Some out' /\ out = firstn n raw ++ out'.
+Proof.
+  induction raw as [|b r IH]; intros out D; cbv zeta.
+  - exists []. cbn in *. inversion D. auto.
+  - cbn [count_while]. destruct (negb (bz b =? 92)) eqn:NB.
+    + cbn [skipn firstn]. cbn [decode_content] in D. apply negb_true_iff in NB. unfold isb at 1 in D. rewrite NB in D.
+      destruct (isb 34 b || r_is_ctl b); [discriminate|].
+      destruct (decode_content r) as [o1|] eqn:D1; [|discriminate]. cbn in D. inversion D; subst out.
+      destruct (IH o1 eq_refl) as (out' & D' & E). exists out'. split; [exact D'|]. cbn [app]. rewrite <- E. reflexivity.
+    + exists out. split; [exact D|reflexivity].
+Qed.
+
+Lemma no_backslash_all : forall raw, has_backslash raw = false ->
+  count_while (fun b => negb (bz b =? 92)) raw = length raw.
+Proof.
+  induction raw as [|b r IH]; intros H; [reflexivity|]. cbn in H. apply orb_false_iff in H. destruct H as [H1 H2].
+  cbn [count_while]. rewrite H1. cbn [negb length]. f_equal. apply IH. exact H2.
+Qed.
+
+(** the key handling of HandleObjectValue returns the decoding of the raw key *)
+Lemma key_of_correct : forall raw out, decode_content raw = Some out -> key_of 10000 unescape_spec raw = inl (Some out).
+Proof.
+  intros raw out D. unfold key_of. destruct (decode_split_plain raw out D) as (out' & D' & E). cbv zeta in *.
+  destruct (has_backslash raw) eqn:HB.
+  - unfold UnescapeStringContent, str_machine. rewrite prun_c_eq.
+    pose proof (unescape_spec_correct 10000 _ out' no_handler [] (firstn (count_while (fun b => negb (bz b =? 92)) raw) raw) D') as U.
+    destruct (obs_done _ _ _ U) as (s & -> & DS). rewrite DS, <- E. reflexivity.
+  - rewrite (no_backslash_all raw HB) in *. rewrite skipn_all in D'. cbn in D'. inversion D'; subst out'.
+    rewrite firstn_all, app_nil_r in E. subst out. reflexivity.
+Qed.
+
+(** ** the token table *)
+Lemma tok_type_isb : forall b, tok_type b =
+  if isb 110 b then NullType else if isb 34 b then StringType
+  else if isb 116 b then TrueType else if isb 102 b then FalseType
+  else if isb 123 b then ObjectStartType else if isb 125 b then ObjectEndType
+  else if isb 91 b then ArrayStartType else if isb 93 b then ArrayEndType
+  else if isb 45 b || is_digit b then NumberType
+  else if isb 44 b then CommaType else if isb 58 b then ColonType
+  else InvalidType.
+Proof. reflexivity. Qed.
+
+Lemma ws0 : forall b r, is_ws b = false -> ws (b :: r) = 0%nat.
+Proof. intros. apply ws_cons_false. assumption. Qed.
+
+Lemma digit_facts : forall b, isb 45 b || is_digit b = true ->
+  is_ws b = false /\ isb 34 b = false /\ isb 110 b = false /\ isb 116 b = false /\ isb 102 b = false /\
+  isb 91 b = false /\ isb 123 b = false.
+Proof.
+  intros b H. apply orb_true_iff in H. destruct H as [H|H].
+  - apply Z.eqb_eq in H. unfold is_ws, isb. rewrite H. cbn. auto 10.
+  - unfold is_digit in H. apply andb_true_iff in H. destruct H as [H1 H2]. apply Z.leb_le in H1, H2.
+    unfold is_ws, isb. repeat split; try (apply Z.eqb_neq; lia).
+    repeat (apply orb_false_iff; split); apply Z.eqb_neq; lia.
+Qed.
+
+Section Reader.
+  Variable readFloat64 : list byte -> Z * Z * option errk.
+  Variable num : list byte -> option Z.
+  Hypothesis FO : float_ok readFloat64 num.
+
+  Notation RSV := (readSimpleValue 10000 null_spec bool_spec append_spec readFloat64).
+  Notation MEM := (ValueReader.member 10000 10000 null_spec bool_spec append_spec readFloat64).
+  Notation rdo := (read_obj 10000 10000 harr_spec hobj_spec null_spec bool_spec append_spec unescape_spec readFloat64).
+  Notation rda := (read_arr 10000 10000 harr_spec hobj_spec null_spec bool_spec append_spec unescape_spec readFloat64).
+
+  (** the reader's result [r] is what the reference [ref] says: the value and offset, or an error *)
+  Definition Agree (r : rres) (ref : option (jv * Z)) : Prop :=
+    match ref with
+    | Some (t, p) => r = Some (t, p, None)
+    | None => exists v p e, r = Some (v, p, Some e)
+    end.
+
+  (** ** scalars: readSimpleValue on the first byte's token type *)
+  Lemma simple_correct : forall b r0, isb 91 b = false -> isb 123 b = false ->
+    Agree (RSV (b :: r0) (tok_type b))
+          (option_map (fun tn => (fst tn, Z.of_nat (snd tn))) (pscalar num (b :: r0))).
+  Proof.
+    intros b r0 A1 A2. rewrite tok_type_isb, A1, A2. unfold readSimpleValue.
+    destruct (isb 110 b) eqn:B110.
+    { (* null *)
+      pose proof B110 as B. apply Z.eqb_eq in B.
+      assert (W : is_ws b = false) by (unfold is_ws; rewrite B; reflexivity).
+      assert (PS : pscalar num (b :: r0) = option_map (fun n => (JNull, n)) (lit_ref lit_null (b :: r0))).
+      { unfold pscalar, isb, is_digit. rewrite B. reflexivity. }
+      rewrite PS. cbn [Z.eqb NullType].
+      pose proof (ReadNull_exact 10000 (b :: r0)) as E. unfold read_lit_ref in E. rewrite (ws0 b r0 W) in E. cbn [skipn] in E.
+      destruct (lit_ref lit_null (b :: r0)) as [n|]; cbn [option_map] in *.
+      - rewrite E. reflexivity.
+      - destruct E as (p & e & ->). cbn. eauto. }
+    destruct (isb 34 b) eqn:B34.
+    { (* string *)
+      pose proof B34 as B. apply Z.eqb_eq in B.
+      assert (W : is_ws b = false) by (unfold is_ws; rewrite B; reflexivity).
+      assert (PS : pscalar num (b :: r0) = option_map (fun cn => (JStr (fst cn), snd cn)) (decode_string_ref (b :: r0))).
+      { unfold pscalar. rewrite B34. reflexivity. }
+      rewrite PS. cbn [Z.eqb NullType StringType].
+      pose proof (ReadStringBytes_spec_correct 10000 (b :: r0) []) as E. unfold read_string_ref in E.
+      rewrite (ws0 b r0 W) in E. cbn [skipn] in E.
+      destruct (decode_string_ref (b :: r0)) as [[c n]|]; cbn [option_map fst snd app] in *.
+      - rewrite E. reflexivity.
+      - destruct E as (v & p & e & ->). cbn. eauto. }
+    destruct (isb 116 b) eqn:B116.
+    { (* true *)
+      pose proof B116 as B. apply Z.eqb_eq in B.
+      assert (W : is_ws b = false) by (unfold is_ws; rewrite B; reflexivity).
+      assert (PS : pscalar num (b :: r0) = option_map (fun n => (JBool true, n)) (lit_ref lit_true (b :: r0))).
+      { unfold pscalar, isb, is_digit. rewrite B. reflexivity. }
+      rewrite PS. cbn [Z.eqb NullType StringType NumberType TrueType FalseType orb].
+      pose proof (ReadBool_exact 10000 (b :: r0)) as E. unfold read_bool_ref, read_lit_ref in E.
+      rewrite (ws0 b r0 W) in E. cbn [skipn] in E.
+      assert (LF : lit_ref lit_false (b :: r0) = None).
+      { unfold lit_ref. cbn [is_prefix lit_false]. rewrite B. reflexivity. }
+      rewrite LF in E.
+      destruct (lit_ref lit_true (b :: r0)) as [n|]; cbn [option_map] in *.
+      - rewrite E. reflexivity.
+      - destruct E as (p & e & ->). cbn. eauto. }
+    destruct (isb 102 b) eqn:B102.
+    { (* false *)
+      pose proof B102 as B. apply Z.eqb_eq in B.
+      assert (W : is_ws b = false) by (unfold is_ws; rewrite B; reflexivity).
+      assert (PS : pscalar num (b :: r0) = option_map (fun n => (JBool false, n)) (lit_ref lit_false (b :: r0))).
+      { unfold pscalar, isb, is_digit. rewrite B. reflexivity. }
+      rewrite PS. cbn [Z.eqb NullType StringType NumberType TrueType FalseType orb].
+      pose proof (ReadBool_exact 10000 (b :: r0)) as E. unfold read_bool_ref, read_lit_ref in E.
+      rewrite (ws0 b r0 W) in E. cbn [skipn] in E.
+      assert (LT : lit_ref lit_true (b :: r0) = None).
+      { unfold lit_ref. cbn [is_prefix lit_true]. rewrite B. reflexivity. }
+      rewrite LT in E.
+      destruct (lit_ref lit_false (b :: r0)) as [n|]; cbn [option_map] in *.
+      - rewrite E. reflexivity.
+      - destruct E as (p & e & ->). cbn. eauto. }
+    assert (OTHER : forall tp, tp = ObjectEndType \/ tp = ArrayEndType \/ tp = CommaType \/ tp = ColonType \/ tp = InvalidType ->
+              isb 45 b || is_digit b = false ->
+              Agree (if tp =? NullType then match ReadNull 10000 null_spec (b :: r0) with inl (p, e) => Some (JNull, p, e) | inr _ => None end
+                     else if tp =? StringType then match ReadStringBytes 10000 append_spec (b :: r0) [] with Some (v, p, e) => Some (JStr v, p, e) | None => None end
+                     else if tp =? NumberType then let '(b0, p, e) := readFloat64 (b :: r0) in Some (JNum b0, p, e)
+                     else if (tp =? TrueType) || (tp =? FalseType) then match ReadBool 10000 bool_spec (b :: r0) with inl (v, p, e) => Some (JBool v, p, e) | inr _ => None end
+                     else Some (JNull, 0, Some EOther))
+                    (option_map (fun tn => (fst tn, Z.of_nat (snd tn))) (pscalar num (b :: r0)))).
+    { intros tp TP ND.
+      assert (PS : pscalar num (b :: r0) = None) by (unfold pscalar; rewrite B34, ND, B116, B102, B110; reflexivity).
+      rewrite PS. destruct TP as [->|[->|[->|[->| ->]]]]; cbn; eauto. }
+    destruct (isb 125 b) eqn:B125.
+    { apply OTHER; [auto|]. apply Z.eqb_eq in B125. unfold isb, is_digit. rewrite B125. reflexivity. }
+    destruct (isb 93 b) eqn:B93.
+    { apply OTHER; [auto|]. apply Z.eqb_eq in B93. unfold isb, is_digit. rewrite B93. reflexivity. }
+    destruct (isb 45 b || is_digit b) eqn:D.
+    { (* number *)
+      destruct (digit_facts b D) as (W & _).
+      assert (PS : pscalar num (b :: r0) =
+                   match number_tok (b :: r0) with
+                   | Some n => option_map (fun bits => (JNum bits, n)) (num (firstn n (b :: r0)))
+                   | None => None
+                   end).
+      { unfold pscalar. rewrite B34, D. reflexivity. }
+      rewrite PS. cbn [Z.eqb NullType StringType NumberType].
+      pose proof (FO (b :: r0)) as E. cbv zeta in E. rewrite (ws0 b r0 W) in E. cbn [skipn] in E.
+      destruct (number_tok (b :: r0)) as [n|].
+      - destruct (num (firstn n (b :: r0))) as [bits|]; cbn [option_map fst snd].
+        + rewrite E. reflexivity.
+        + destruct E as (b0 & p & e & ->). cbn. eauto.
+      - destruct E as (b0 & p & e & ->). cbn. eauto. }
+    destruct (isb 44 b); [apply OTHER; auto|]. destruct (isb 58 b); apply OTHER; auto.
+  Qed.
+
+  (** ** one member (and the top-level value): NextTokenType, then a nested reader or readSimpleValue *)
+  Definition Sound (r : rres) (ref : option (jv * Z)) : Prop :=
+    forall t p, r = Some (t, p, None) -> ref = Some (t, p).
+
+  Lemma Agree_Sound : forall r ref, Agree r ref -> Sound r ref.
+  Proof.
+    intros r [[t p]|] A t' p' E; cbn in A.
+    - rewrite A in E. inversion E. reflexivity.
+    - destruct A as (v & p0 & e & A). rewrite A in E. discriminate.
+  Qed.
+
+  Definition lift (w : Z) (r : rres) : rres :=
+    match r with Some (v, pp, e) => Some (v, w + pp, e) | None => None end.
+  Definition shift (w : Z) (ref : option (jv * Z)) : option (jv * Z) :=
+    option_map (fun tp => (fst tp, w + snd tp)) ref.
+
+  Lemma Agree_lift : forall w r ref, Agree r ref -> Agree (lift w r) (shift w ref).
+  Proof.
+    intros w r [[t p]|] A; cbn in *.
+    - rewrite A. reflexivity.
+    - destruct A as (v & p0 & e & ->). cbn. eauto.
+  Qed.
+  Lemma Sound_lift : forall w r ref, Sound r ref -> Sound (lift w r) (shift w ref).
+  Proof.
+    intros w r ref S t p E. destruct r as [[[v pp] e]|]; [|discriminate]. cbn in E. inversion E; subst.
+    rewrite (S t pp eq_refl). reflexivity.
+  Qed.
+
+  (** the reference for a value at reader depth [depth] (= number of containers open around it) *)
+  Definition vref (depth : Z) (lv : list byte) : option (jv * Z) :=
+    let w := ws lv in
+    option_map (fun tn => (fst tn, Z.of_nat (w + snd tn))) (pvalue num 10000 (length lv + 2) depth (skipn w lv)).
+  (** ... and for a value that must be an object / an array *)
+  Definition tref (obj : bool) (depth : Z) (lv : list byte) : option (jv * Z) :=
+    match skipn (ws lv) lv with
+    | b :: _ => if isb (if obj then 123 else 91) b then vref depth lv else None
+    | [] => None
+    end.
+
+  Lemma vref_parse : forall data, vref 0 data = parse_ref num data.
+  Proof. reflexivity. Qed.
+  Lemma tref_parse : forall obj data, tref obj 0 data = parse_typed_ref num obj data.
+  Proof. reflexivity. Qed.
+
+  Lemma tok_obj : forall b, (tok_type b =? ObjectStartType) = isb 123 b.
+  Proof. destruct b; reflexivity. Qed.
+  Lemma tok_arr : forall b, (tok_type b =? ArrayStartType) = isb 91 b.
+  Proof. destruct b; reflexivity. Qed.
+  Lemma open_not_ws : forall b, isb 123 b = true \/ isb 91 b = true -> is_ws b = false.
+  Proof. intros b [H|H]; apply Z.eqb_eq in H; unfold is_ws; rewrite H; reflexivity. Qed.
+
+  Lemma member_gen : forall (Rel : rres -> option (jv * Z) -> Prop),
+    (forall r ref, Agree r ref -> Rel r ref) ->
+    (forall w r ref, Rel r ref -> Rel (lift w r) (shift w ref)) ->
+    forall (ro ra : list byte -> rres) depth lv, 0 <= depth <= 10000 ->
+    (forall b r0, isb 123 b = true -> depth < 10000 -> Rel (ro (b :: r0)) (tref true depth (b :: r0))) ->
+    (forall b r0, isb 91 b = true -> depth < 10000 -> Rel (ra (b :: r0)) (tref false depth (b :: r0))) ->
+    Rel (MEM ro ra depth lv) (vref depth lv).
+  Proof.
+    intros Rel RA RL ro ra depth lv DP HO HA. unfold ValueReader.member, vref.
+    pose proof (next_token_type_spec lv) as NT. cbv zeta in NT. fold (ws lv) in NT. set (w := ws lv) in *.
+    destruct (skipn w lv) as [|b r0] eqn:L.
+    { rewrite NT. apply RA. replace (length lv + 2)%nat with (S (length lv + 1)) by lia. cbn. eauto. }
+    rewrite NT. replace (Z.of_nat w + 1 - 1) with (Z.of_nat w) by lia. rewrite Nat2Z.id, L.
+    rewrite tok_obj, tok_arr.
+    assert (LL : (length (b :: r0) <= length lv)%nat) by (rewrite <- L; apply skipn_le).
+    assert (FUEL : pvalue num 10000 (length lv + 2) depth (b :: r0) = pvalue num 10000 (length (b :: r0) + 2) depth (b :: r0))
+      by (apply pvalue_fuel; lia).
+    assert (NEST : forall (obj : bool) (rd : list byte -> rres), isb (if obj then 123 else 91) b = true ->
+              (depth < 10000 -> Rel (rd (b :: r0)) (tref obj depth (b :: r0))) ->
+              Rel (if depth + 1 >? 10000 then Some (JNull, Z.of_nat w, Some EMaxDepth)
+                   else match rd (b :: r0) with Some (v, pp, e) => Some (v, Z.of_nat w + pp, e) | None => None end)
+                  (option_map (fun tn => (fst tn, Z.of_nat (w + snd tn))) (pvalue num 10000 (length lv + 2) depth (b :: r0)))).
+    { intros obj rd OB HR.
+      assert (W : is_ws b = false) by (apply open_not_ws; destruct obj; auto).
+      destruct (depth + 1 >? 10000) eqn:G.
+      - apply RA. apply Z.gtb_lt in G.
+        assert (M : (10000 <=? depth) = true) by (apply Z.leb_le; lia).
+        replace (length lv + 2)%nat with (S (length lv + 1)) by lia. cbn [pvalue]. rewrite M.
+        destruct obj.
+        + assert (A : isb 91 b = false) by (apply Z.eqb_eq in OB; unfold isb; rewrite OB; reflexivity).
+          rewrite A, OB. cbn. eauto.
+        + rewrite OB. cbn. eauto.
+      - assert (DL : depth < 10000) by (rewrite Z.gtb_ltb in G; apply Z.ltb_ge in G; lia).
+        specialize (HR DL). apply (RL (Z.of_nat w)) in HR.
+        unfold tref, vref in HR. rewrite (ws0 b r0 W) in HR. cbn [skipn] in HR. rewrite OB in HR.
+        rewrite FUEL.
+        assert (E : shift (Z.of_nat w) (option_map (fun tn : jv * nat => (fst tn, Z.of_nat (0 + snd tn)))
+                                          (pvalue num 10000 (length (b :: r0) + 2) depth (b :: r0))) =
+                    option_map (fun tn => (fst tn, Z.of_nat (w + snd tn))) (pvalue num 10000 (length (b :: r0) + 2) depth (b :: r0))).
+        { destruct (pvalue num 10000 (length (b :: r0) + 2) depth (b :: r0)) as [[t n]|]; [|reflexivity]. cbn. do 2 f_equal. lia. }
+        rewrite <- E. exact HR. }
+    destruct (isb 123 b) eqn:B123.
+    { apply (NEST true ro); auto. }
+    destruct (isb 91 b) eqn:B91.
+    { apply (NEST false ra); auto. }
+    pose proof (simple_correct b r0 B91 B123) as SC. apply RA in SC. apply (RL (Z.of_nat w)) in SC.
+    assert (E : shift (Z.of_nat w) (option_map (fun tn : jv * nat => (fst tn, Z.of_nat (snd tn))) (pscalar num (b :: r0))) =
+                option_map (fun tn => (fst tn, Z.of_nat (w + snd tn))) (pvalue num 10000 (length lv + 2) depth (b :: r0))).
+    { replace (length lv + 2)%nat with (S (length lv + 1)) by lia. cbn [pvalue]. rewrite B91, B123.
+      destruct (pscalar num (b :: r0)) as [[t n]|]; [|reflexivity]. cbn. do 2 f_equal. lia. }
+    rewrite <- E. exact SC.
+  Qed.
+End Reader.
